@@ -15,6 +15,9 @@ func main() {
 		fmt.Println("usage: vcheck <property id> [quick|thorough] [--replay file]")
 		os.Exit(2)
 	}
+	if os.Args[1] == "__worker" {
+		os.Exit(checks.WorkerMain(os.Args[2:]))
+	}
 	id := strings.ToUpper(os.Args[1])
 	replay := ""
 	for i := 2; i < len(os.Args); i++ {
